@@ -88,6 +88,12 @@ func c12Pay(c *fw.Ctx, i int) {
 	p := &codecs.VP9Payloader{FlexibleMode: flex, InitialPictureIDFn: func() uint16 { return start }}
 	nframes := r.Range(2, 6)
 	for k := 0; k < nframes; k++ {
+		if k > 0 && r.Chance(1, 6) {
+			// FlexibleMode is an exported field: the application switches mode between two frames
+			flex = !flex
+			p.FlexibleMode = flex
+			c.Count("mode_switched_in_mid_stream", 1)
+		}
 		h := c12Header(r, false)
 		hb, _ := h.Encode()
 		minMTU := 4
